@@ -75,6 +75,9 @@ func Run(h *Host, kind string, src string, args [][]byte, useVM bool, seq uint64
 		UseVM:            useVM,
 		ComputationGauge: h,
 	}
+	if h.MemLimit > 0 || h.RecordMem {
+		ctx.MemoryGauge = h
+	}
 	script := runtime.Script{Source: []byte(src), Arguments: args}
 	var ex runtime.Executor
 	switch kind {
